@@ -831,6 +831,9 @@ class QasmVisitor:
             )
         self._custom_gate_stack.append(gate_name)
         self._push_context(Context.GATE)
+        # the body has a scope of its own: besides its (already substituted) parameters it sees the
+        # global constants only, never the variables of whoever applies the gate
+        self._push_scope({})
         result = []
         for gate_op in gate_definition_ops:
             if isinstance(gate_op, (qasm3_ast.QuantumGate, qasm3_ast.QuantumPhase)):
@@ -856,6 +859,7 @@ class QasmVisitor:
                     f"Unsupported gate definition statement {gate_op}", span=gate_op.span
                 )
 
+        self._pop_scope()
         self._restore_context()
         self._custom_gate_stack.pop()
 
